@@ -308,6 +308,11 @@ theorem not_consistent_of_table (d : Driver) (plan : Plan)
   rw [(consistentB_iff _ _).mpr hc] at h
   exact Bool.noConfusion h
 
+theorem not_consistent_of_b (n : Nat) (s : St) (h : consistentB n s = false) : ¬ Consistent n s := by
+  intro hc
+  rw [(consistentB_iff _ _).mpr hc] at h
+  exact Bool.noConfusion h
+
 /-! ## Invariants carried through a whole program -/
 
 /-- every atom of the program (at any nesting depth) satisfies `A` -/
@@ -397,6 +402,22 @@ example : (exec noFault 10 [.atom 2 .io] init).1.ioLog = [] := by decide
 /-- … whereas on an open instrument the same method does reach the device -/
 example : (exec noFault 10 [.atom 1 .checkOpen, .atom 2 .io] ⟨true, [0], [], [], 0⟩).1.ioLog = [2] := by decide
 
+
+/-- every RPC-method shape the static analysis distinguishes is such a program: on a closed instrument none of them
+    performs device I/O or changes the state, whatever the fault plan -/
+theorem method_closed_no_io (g : Guard) (P : Plan) (f : Nat) (s : St) (hc : FullyClosed s) :
+    FullyClosed (exec P f g.prog s).1 ∧ (exec P f g.prog s).1.ioLog = s.ioLog := by
+  apply closed_no_io P f g.prog s _ hc
+  cases g
+  · exact .atom ⟨fun _ => by simp, by simp⟩ (.atom ⟨fun _ => by simp, by simp⟩ .nil)
+  · exact .atom ⟨fun _ => by simp, by simp⟩ .nil
+  · exact .atom ⟨fun _ => by simp, by simp⟩ .nil
+
+/-- a guarded method is refused by the instrument itself: the link object is not even asked -/
+theorem guarded_method_refused (P : Plan) (f : Nat) (s : St) (hc : FullyClosed s) :
+    (exec P (f + 2) Guard.guard.prog s).2 = .raised .invalidOp ∧
+    (exec P (f + 2) Guard.guard.prog s).1.trace = 9001 :: s.trace := by
+  simp [Guard.prog, exec, stepAtom, andThen, hc.1]
 
 /-! ## Opening an open / closing a closed instrument is refused -/
 
@@ -1179,26 +1200,33 @@ example :
 
 `chk` runs a program on the *core* of the state (flag, open links) without a fault plan: at every fault point both
 continuations are followed — the normal one, and the exceptional one through the enclosing handlers, summarised by
-the acceptance predicate `K` ("raising here, in this state, ends in an acceptable state").  It accepts programs of
-any nesting depth and any number of links (e.g. the two-channel `Bristol_871A.open()`), and it is sound for
-*every* fault plan (`chk_sound`), so `safeOpen` is a decidable discipline that implies consistency. -/
+the acceptance predicate `K` ("raising here, in this state, ends in an acceptable state").  Handlers are run the
+same way, so a *second* fault inside a cleanup handler is covered too.  It accepts programs of any nesting depth and
+any number of links (e.g. the two-channel `Bristol_871A.open()`), and it is sound for *every* fault plan with
+*any number of faults* (`chk_sound`), so `safeOpen` is a decidable discipline that implies consistency. -/
 
 abbrev Core := Bool × List Nat
 
 def core (s : St) : Core := (s.instrOpen, s.links)
 
 /-- abstract effect of one atom: `none` = raises for sure in this state (not accepted);
-    `some (σ', canRaise)` = state after normal completion, and whether it is a fault point -/
-def absAtom (a : Atom) (σ : Core) : Option (Core × Bool) :=
+    `some (σ', ρ)` = state after normal completion, and the state in which it raises if it is a fault point -/
+def absAtom (a : Atom) (σ : Core) : Option (Core × Option Core) :=
   match a with
-  | .pure => some (σ, false)
-  | .io => some (σ, true)
-  | .checkClosed => if σ.1 then none else some (σ, false)
-  | .checkOpen => if σ.1 then some (σ, false) else none
-  | .superOpen => if σ.1 then none else some ((true, σ.2), false)
-  | .superClose => if σ.1 then some ((false, σ.2), false) else none
-  | .tOpen t => if σ.2.contains t then none else some ((σ.1, t :: σ.2), true)
-  | .tClose t => if σ.2.contains t then some ((σ.1, σ.2.filter (· != t)), false) else none
+  | .pure => some (σ, none)
+  | .io => some (σ, some σ)
+  | .checkClosed => if σ.1 then none else some (σ, none)
+  | .checkOpen => if σ.1 then some (σ, none) else none
+  | .superOpen => if σ.1 then none else some ((true, σ.2), none)
+  | .superClose => if σ.1 then some ((false, σ.2), none) else none
+  | .tOpen t => if σ.2.contains t then none else some ((σ.1, t :: σ.2), some σ)
+  | .tClose t =>
+      if σ.2.contains t then some ((σ.1, σ.2.filter (· != t)), some (σ.1, σ.2.filter (· != t))) else none
+
+/-- may the atom raise acceptably? -/
+def raiseOK (K : Core → Bool) : Option Core → Bool
+  | none => true
+  | some τ => K τ
 
 /-- abstract run; `K τ` = "an exception raised in core state τ is acceptable here" -/
 def chk : Nat → (Core → Bool) → Core → Prog → Option Core
@@ -1207,20 +1235,20 @@ def chk : Nat → (Core → Bool) → Core → Prog → Option Core
   | f + 1, K, σ, .atom _ a :: rest =>
       match absAtom a σ with
       | none => none
-      | some (σ', cr) => if cr && !K σ then none else chk f K σ' rest
+      | some (σ', ρ) => if raiseOK K ρ then chk f K σ' rest else none
   | f + 1, K, σ, .try_ body cs h ex :: rest =>
       match chk f (fun τ =>
           (catchesAll cs || K τ) &&
-          (match chk f (fun _ => false) τ h with
+          (match chk f K τ h with
            | some τ' => ex != .swallow && K τ'
            | none => false)) σ body with
       | none => none
       | some σ1 => chk f K σ1 rest
 
-private theorem absAtom_sound (P : Plan) (id : Nat) (a : Atom) (s : St) (σ' : Core) (cr : Bool)
-    (h : absAtom a (core s) = some (σ', cr)) :
+private theorem absAtom_sound (P : Plan) (id : Nat) (a : Atom) (s : St) (σ' : Core) (ρ : Option Core)
+    (h : absAtom a (core s) = some (σ', ρ)) :
     ((stepAtom P id a s).2 = .ok ∧ core (stepAtom P id a s).1 = σ') ∨
-    (cr = true ∧ ∃ κ, (stepAtom P id a s).2 = .raised κ ∧ core (stepAtom P id a s).1 = core s) := by
+    (∃ κ, (stepAtom P id a s).2 = .raised κ ∧ ρ = some (core (stepAtom P id a s).1)) := by
   obtain ⟨fl, ln, io, tr, cn⟩ := s
   cases a with
   | pure =>
@@ -1232,7 +1260,7 @@ private theorem absAtom_sound (P : Plan) (id : Nat) (a : Atom) (s : St) (σ' : C
     unfold stepAtom
     simp only
     split
-    · next κ _ => exact Or.inr ⟨h2.symm, κ, rfl, rfl⟩
+    · next κ _ => exact Or.inr ⟨κ, rfl, h2.symm⟩
     · exact Or.inl ⟨rfl, h1⟩
   | checkClosed =>
     cases fl <;> simp [absAtom, core] at h
@@ -1255,20 +1283,23 @@ private theorem absAtom_sound (P : Plan) (id : Nat) (a : Atom) (s : St) (σ' : C
       unfold stepAtom
       simp only [hc, Bool.false_eq_true, if_false]
       split
-      · next κ _ => exact Or.inr ⟨h2.symm, κ, rfl, rfl⟩
+      · next κ _ => exact Or.inr ⟨κ, rfl, h2.symm⟩
       · exact Or.inl ⟨rfl, h1⟩
   | tClose t =>
     by_cases hm : t ∈ ln
     · have hc : ln.contains t = true := by simpa using hm
       simp only [absAtom, core, hc, if_true, Option.some.injEq, Prod.mk.injEq] at h
+      obtain ⟨h1, h2⟩ := h
       unfold stepAtom
       simp only [hc, if_true]
-      exact Or.inl ⟨by simp, by simpa [core] using h.1⟩
+      split
+      · next κ _ => exact Or.inr ⟨κ, rfl, h2.symm⟩
+      · exact Or.inl ⟨rfl, h1⟩
     · simp [absAtom, core, hm] at h
 
-/-- **chk_sound.** If the abstract run accepts, then under *every* fault plan the real run either completes
-    normally in the predicted core state, or raises in a state the acceptance predicate admits; it never
-    runs out of fuel. -/
+/-- **chk_sound.** If the abstract run accepts, then under *every* fault plan (any number of faults) the real run
+    either completes normally in the predicted core state, or raises in a state the acceptance predicate admits;
+    it never runs out of fuel. -/
 theorem chk_sound (P : Plan) : ∀ (f : Nat) (K : Core → Bool) (σ : Core) (p : Prog) (σ' : Core),
     chk f K σ p = some σ' → ∀ s : St, core s = σ →
     ((exec P f p s).2 = .ok ∧ core (exec P f p s).1 = σ') ∨
@@ -1290,24 +1321,23 @@ theorem chk_sound (P : Plan) : ∀ (f : Nat) (K : Core → Bool) (σ : Core) (p 
         cases ha : absAtom a σ with
         | none => simp [ha] at h
         | some pr =>
-          obtain ⟨σ1, cr⟩ := pr
+          obtain ⟨σ1, ρ⟩ := pr
           simp only [ha] at h
-          by_cases hk : (cr && !K σ) = true
-          · simp [hk] at h
-          · simp only [hk, Bool.false_eq_true, if_false] at h
-            rcases absAtom_sound P id a s σ1 cr (by rw [hs]; exact ha) with ⟨hok, hc⟩ | ⟨hcr, κ, hr, hc⟩
+          by_cases hk : raiseOK K ρ = true
+          · simp only [hk, if_true] at h
+            rcases absAtom_sound P id a s σ1 ρ (by rw [hs]; exact ha) with ⟨hok, hc⟩ | ⟨κ, hr, hρ⟩
             · rw [andThen_ok hok]
               exact ih K σ1 rest σ' h _ hc
             · rw [andThen_not_ok (by rw [hr]; simp)]
               refine Or.inr ⟨κ, hr, ?_⟩
-              rw [hc, hs]
-              subst hcr
-              simpa using hk
+              rw [hρ] at hk
+              exact hk
+          · simp [hk] at h
       | try_ body cs hd ex =>
         simp only [chk] at h
         simp only [exec]
         generalize hKb : (fun τ => (catchesAll cs || K τ) &&
-          (match chk f (fun _ => false) τ hd with
+          (match chk f K τ hd with
            | some τ' => ex != .swallow && K τ'
            | none => false)) = Kb at h
         cases hb : chk f Kb σ body with
@@ -1323,13 +1353,13 @@ theorem chk_sound (P : Plan) : ∀ (f : Nat) (K : Core → Bool) (σ : Core) (p 
             simp only [Bool.and_eq_true, Bool.or_eq_true] at hkb
             obtain ⟨hk1, hk2⟩ := hkb
             by_cases hcon : cs.contains κ = true
-            · -- caught: the handler runs quietly, then the exit raises
-              cases hh : chk f (fun _ => false) (core (exec P f body s).1) hd with
+            · -- caught: the handler runs (it may itself fail), then the exit raises
+              cases hh : chk f K (core (exec P f body s).1) hd with
               | none => simp [hh] at hk2
               | some τ' =>
                 simp only [hh, Bool.and_eq_true, bne_iff_ne, ne_eq] at hk2
                 obtain ⟨hex, hkt⟩ := hk2
-                rcases ih (fun _ => false) _ hd τ' hh (exec P f body s).1 rfl with ⟨hok2, hc2⟩ | ⟨κ2, _, hfalse⟩
+                rcases ih K _ hd τ' hh (exec P f body s).1 rfl with ⟨hok2, hc2⟩ | ⟨κ2, hr2, hk2'⟩
                 · have e : handleRes cs ex (exec P f body s) (exec P f hd) =
                       ((exec P f hd (exec P f body s).1).1, ex.apply κ) := by
                     unfold handleRes; simp only [hr, hcon, if_true]; rw [hok2]
@@ -1340,7 +1370,10 @@ theorem chk_sound (P : Plan) : ∀ (f : Nat) (K : Core → Bool) (σ : Core) (p 
                   | reraise => exact Or.inr ⟨κ, rfl, by rw [hc2]; exact hkt⟩
                   | raiseK κ' => exact Or.inr ⟨κ', rfl, by rw [hc2]; exact hkt⟩
                   | swallow => exact absurd rfl hex
-                · exact absurd hfalse (by simp)
+                · have e : handleRes cs ex (exec P f body s) (exec P f hd) = exec P f hd (exec P f body s).1 := by
+                    unfold handleRes; simp only [hr, hcon, if_true]; rw [hr2]
+                  rw [e, andThen_not_ok (by rw [hr2]; simp)]
+                  exact Or.inr ⟨κ2, hr2, hk2'⟩
             · -- not caught: the exception passes through
               have hnall : catchesAll cs = false := by
                 cases hca : catchesAll cs
@@ -1355,8 +1388,7 @@ theorem chk_sound (P : Plan) : ∀ (f : Nat) (K : Core → Bool) (σ : Core) (p 
               rw [e, andThen_not_ok (by rw [hr]; simp)]
               exact Or.inr ⟨κ, hr, hK⟩
 
-
-/-- the acceptance predicate of `open()`: the property itself, on the core state -/
+/-- the acceptance predicate of `open()`/`close()`: the property itself, on the core state -/
 def goodB (n : Nat) (σ : Core) : Bool :=
   if σ.1 then (List.range n).all (fun t => σ.2.contains t) else σ.2.isEmpty
 
@@ -1369,9 +1401,9 @@ def safeOpen (n : Nat) (p : Prog) : Bool :=
   | some σ => goodB n σ
   | none => false
 
-/-- **consistent_of_safe** (generalises `consistent_of_wf` to any nesting depth and any number of links).
-    A driver whose `open()` passes `safeOpen` leaves the instrument consistent under *every* fault plan, and the run
-    is complete (fuel not exhausted). -/
+/-- **consistent_of_safe** (generalises `consistent_of_wf` to any nesting depth, any number of links and any number
+    of faults per call).  A driver whose `open()` passes `safeOpen` leaves the instrument consistent under *every*
+    fault plan, and the run is complete (fuel not exhausted). -/
 theorem consistent_of_safe (n : Nat) (p : Prog) (h : safeOpen n p = true) (P : Plan) (s : St) (hs : FullyClosed s) :
     Consistent n (exec P fuel0 p s).1 ∧ (exec P fuel0 p s).2 ≠ .outOfFuel := by
   unfold safeOpen at h
@@ -1386,6 +1418,11 @@ theorem consistent_of_safe (n : Nat) (p : Prog) (h : safeOpen n p = true) (P : P
       rw [← goodB_core, hco]; exact h
     · refine ⟨(consistentB_iff _ _).mp ?_, by rw [hr]; simp⟩
       rw [← goodB_core]; exact hk
+
+/-- the per-class theorem `ok_<Driver>`: every plan — any number of faults, any kinds, at any fault points,
+    including failures of the cleanup itself — leaves `open()` consistent -/
+theorem all_plans_of_safe (d : Driver) (h : safeOpen d.nlinks d.openP = true) : ∀ P : Plan, GoodRun d P :=
+  fun P => consistent_of_safe d.nlinks d.openP h P init ⟨rfl, rfl⟩
 
 /-- non-vacuity: the repaired two-channel Bristol shape (nested handlers, two links), the K10CR1 shape and the
     one-channel Bristol shape with an empty inner handler are accepted; the historical shapes of
@@ -1404,20 +1441,26 @@ example : safeOpen 1 [.atom 1 .pure, .atom 2 (.tOpen 0), .atom 3 .io, .atom 4 .s
 example : safeOpen 1 [.atom 1 .pure, .atom 2 (.tOpen 0), .try_ [.atom 4 .io] [.os] [.atom 5 (.tClose 0)] .reraise,
     .atom 7 .superOpen] = false := by decide
 example : safeOpen 1 [.atom 1 .pure, .atom 2 .superOpen, .atom 3 (.tOpen 0)] = false := by decide
+/-- a two-fault plan on the K10CR1 shape: the I/O fails, then the cleanup `close()` fails too — still consistent -/
+example :
+    let p : Prog := [.atom 2 .checkClosed, .atom 3 (.tOpen 0),
+      .try_ [.atom 6 .io, .atom 7 .io] allKinds [.atom 8 (.tClose 0)] .reraise, .atom 10 .superOpen]
+    let P : Plan := fun c => if c = 1 then some .timeout else if c = 2 then some .os else none
+    (exec P 50 p init).2 = .raised .os ∧ consistentB 1 (exec P 50 p init).1 = true := by decide
 
 /-! ### the fault-free run follows the abstract run exactly (used for `close()` after `open()`) -/
 
-private theorem absAtom_sound_none (id : Nat) (a : Atom) (s : St) (σ' : Core) (cr : Bool)
-    (h : absAtom a (core s) = some (σ', cr)) :
+private theorem absAtom_sound_none (id : Nat) (a : Atom) (s : St) (σ' : Core) (ρ : Option Core)
+    (h : absAtom a (core s) = some (σ', ρ)) :
     (stepAtom noFault id a s).2 = .ok ∧ core (stepAtom noFault id a s).1 = σ' := by
-  rcases absAtom_sound noFault id a s σ' cr h with hok | ⟨_, κ, hr, _⟩
+  rcases absAtom_sound noFault id a s σ' ρ h with hok | ⟨κ, hr, _⟩
   · exact hok
   · -- without a plan no fault point raises, and `absAtom` excluded the state-determined raises
     exfalso
     obtain ⟨fl, ln, io, tr, cn⟩ := s
     cases a with
     | pure => simp [stepAtom] at hr
-    | io => simp [stepAtom, fault] at hr
+    | io => simp [stepAtom, fault, noFault] at hr
     | checkClosed => cases fl <;> simp [absAtom, core, stepAtom] at h hr
     | checkOpen => cases fl <;> simp [absAtom, core, stepAtom] at h hr
     | superOpen => cases fl <;> simp [absAtom, core, stepAtom] at h hr
@@ -1425,10 +1468,10 @@ private theorem absAtom_sound_none (id : Nat) (a : Atom) (s : St) (σ' : Core) (
     | tOpen t =>
       by_cases hm : t ∈ ln
       · simp [absAtom, core, hm] at h
-      · simp [stepAtom, fault, hm] at hr
+      · simp [stepAtom, fault, noFault, hm] at hr
     | tClose t =>
       by_cases hm : t ∈ ln
-      · simp [stepAtom, hm] at hr
+      · simp [stepAtom, fault, noFault, hm] at hr
       · simp [absAtom, core, hm] at h
 
 theorem chk_sound_nofault : ∀ (f : Nat) (K : Core → Bool) (σ : Core) (p : Prog) (σ' : Core),
@@ -1451,19 +1494,19 @@ theorem chk_sound_nofault : ∀ (f : Nat) (K : Core → Bool) (σ : Core) (p : P
         cases ha : absAtom a σ with
         | none => simp [ha] at h
         | some pr =>
-          obtain ⟨σ1, cr⟩ := pr
+          obtain ⟨σ1, ρ⟩ := pr
           simp only [ha] at h
-          by_cases hk : (cr && !K σ) = true
-          · simp [hk] at h
-          · simp only [hk, Bool.false_eq_true, if_false] at h
-            have := absAtom_sound_none id a s σ1 cr (by rw [hs]; exact ha)
+          by_cases hk : raiseOK K ρ = true
+          · simp only [hk, if_true] at h
+            have := absAtom_sound_none id a s σ1 ρ (by rw [hs]; exact ha)
             rw [andThen_ok this.1]
             exact ih K σ1 rest σ' h _ this.2
+          · simp [hk] at h
       | try_ body cs hd ex =>
         simp only [chk] at h
         simp only [exec]
         generalize (fun τ => (catchesAll cs || K τ) &&
-          (match chk f (fun _ => false) τ hd with
+          (match chk f K τ hd with
            | some τ' => ex != .swallow && K τ'
            | none => false)) = Kb at h
         cases hb : chk f Kb σ body with
@@ -1476,8 +1519,20 @@ theorem chk_sound_nofault : ∀ (f : Nat) (K : Core → Bool) (σ : Core) (p : P
           rw [e, andThen_ok hbody.1]
           exact ih K σ1 rest σ' h _ hbody.2
 
-/-- `open()` passes the discipline and `close()`, run abstractly from the state `open()` ends in, ends fully closed -/
+/-- `open()` passes the discipline and `close()`, run abstractly from the state `open()` ends in, ends fully closed
+    when nothing fails and consistent (fully closed or still fully open) whatever fails inside `close()` -/
 def safeClose (n : Nat) (po pc : Prog) : Bool :=
+  match chk fuel0 (goodB n) (false, []) po with
+  | some σ =>
+    σ.1 && goodB n σ &&
+    (match chk fuel0 (goodB n) σ pc with
+     | some τ => !τ.1 && τ.2.isEmpty
+     | none => false)
+  | none => false
+
+/-- the fault-free part only (a driver may pass this and fail `safeClose`: then some fault inside `close()` leaves
+    it inconsistent — the generated `closebad_<Driver>` states the plan) -/
+def safeCloseNoFault (n : Nat) (po pc : Prog) : Bool :=
   match chk fuel0 (goodB n) (false, []) po with
   | some σ =>
     σ.1 && goodB n σ &&
@@ -1488,11 +1543,12 @@ def safeClose (n : Nat) (po pc : Prog) : Bool :=
 
 /-- **close_after_open_safe** (generalises the success part of `close_after_open` to any number of links):
     a successful `open()` opens every link, and `close()` then succeeds and leaves the instrument fully closed. -/
-theorem close_after_open_safe (n : Nat) (po pc : Prog) (h : safeClose n po pc = true) (s : St) (hs : FullyClosed s) :
+theorem close_after_open_safe (n : Nat) (po pc : Prog) (h : safeCloseNoFault n po pc = true) (s : St)
+    (hs : FullyClosed s) :
     (exec noFault fuel0 po s).2 = .ok ∧ FullyOpen n (exec noFault fuel0 po s).1 ∧
     (exec noFault fuel0 pc (exec noFault fuel0 po s).1).2 = .ok ∧
     FullyClosed (exec noFault fuel0 pc (exec noFault fuel0 po s).1).1 := by
-  unfold safeClose at h
+  unfold safeCloseNoFault at h
   cases hc : chk fuel0 (goodB n) (false, []) po with
   | none => simp [hc] at h
   | some σ =>
@@ -1520,7 +1576,55 @@ theorem close_after_open_safe (n : Nat) (po pc : Prog) (h : safeClose n po pc = 
         simp only [core] at this
         rw [this]; exact hclose.2
 
-example : safeClose 2
+/-- **close_faults_safe.** For a driver that passes `safeClose`: after a successful `open()`, `close()` under *any*
+    fault plan (a final I/O fails, a transport's `close()` fails, several of them) leaves the instrument
+    consistent: fully closed with every link released, or still fully open so that `close()` can be repeated. -/
+theorem close_faults_safe (n : Nat) (po pc : Prog) (h : safeClose n po pc = true) (P : Plan) (s s' : St)
+    (hs : FullyClosed s) (hs' : core s' = core (exec noFault fuel0 po s).1) :
+    Consistent n (exec P fuel0 pc s').1 ∧ (exec P fuel0 pc s').2 ≠ .outOfFuel := by
+  unfold safeClose at h
+  cases hc : chk fuel0 (goodB n) (false, []) po with
+  | none => simp [hc] at h
+  | some σ =>
+    simp only [hc, Bool.and_eq_true] at h
+    obtain ⟨_, hclose⟩ := h
+    have hcore : core s = (false, []) := by
+      unfold core; rw [hs.1, hs.2]
+    have ho := chk_sound_nofault fuel0 (goodB n) (false, []) po σ hc s hcore
+    cases hc2 : chk fuel0 (goodB n) σ pc with
+    | none => simp [hc2] at hclose
+    | some τ =>
+      simp only [hc2, Bool.and_eq_true, Bool.not_eq_true', List.isEmpty_iff] at hclose
+      rcases chk_sound P fuel0 (goodB n) σ pc τ hc2 s' (hs'.trans ho.2) with ⟨hok, hco⟩ | ⟨κ, hr, hk⟩
+      · refine ⟨(consistentB_iff _ _).mp ?_, by rw [hok]; simp⟩
+        rw [← goodB_core, hco]
+        obtain ⟨h1, h2⟩ := hclose
+        obtain ⟨t1, t2⟩ := τ
+        simp only at h1 h2
+        subst h1 h2
+        rfl
+      · refine ⟨(consistentB_iff _ _).mp ?_, by rw [hr]; simp⟩
+        rw [← goodB_core]; exact hk
+
+/-- the per-class form: `close()` of the generated driver, after its fault-free `open()`, under every plan -/
+theorem close_all_plans_of_safe (d : Driver) (h : safeClose d.nlinks d.openP d.closeP = true) :
+    ∀ P : Plan, Consistent d.nlinks (runClose d P).1 ∧ (runClose d P).2 ≠ .outOfFuel :=
+  fun P => close_faults_safe d.nlinks d.openP d.closeP h P init _ ⟨rfl, rfl⟩ rfl
+
+/-- non-vacuity: the two-channel Bristol open with a close that releases the second link even if closing the first
+    fails is accepted; the historical close of `Bristol_871A` (plain sequence: if closing the serial link fails the
+    SCPI link stays open on a closed instrument) and a close in the order "transport first, flag second" pass only
+    the fault-free part. Constants, not the source. -/
+example : safeClose 1
+    [.atom 1 .pure, .atom 2 (.tOpen 0), .atom 3 .superOpen]
+    [.atom 1 .pure, .atom 2 .superClose, .atom 3 (.tClose 0)] = true := by decide
+example : safeClose 1
+    [.atom 1 .pure, .atom 2 (.tOpen 0), .atom 3 .superOpen]
+    [.atom 1 .checkOpen, .atom 2 (.tClose 0), .atom 3 .superClose] = false := by decide
+example : safeCloseNoFault 1
+    [.atom 1 .pure, .atom 2 (.tOpen 0), .atom 3 .superOpen]
+    [.atom 1 .checkOpen, .atom 2 (.tClose 0), .atom 3 .superClose] = true := by decide
+example : safeCloseNoFault 2
     [.atom 1 .pure, .atom 3 (.tOpen 0),
      .try_ [.atom 6 (.tOpen 1), .try_ [.atom 8 .io] allKinds [.atom 11 (.tClose 1)] .reraise] allKinds
        [.atom 14 (.tClose 0)] .reraise, .atom 16 .superOpen]
